@@ -59,7 +59,7 @@ def rand_opts(rng):
 def gen_case(rng):
     kind = gens.pick(rng, gens.FAMILIES)
     eo = gens.env_opts(rng)
-    n = int(rng.integers(3, 15)) if rng.random() < .3 else int(gens.pick(rng, [16, 40, 100, 300]))
+    n = int(rng.integers(3, 15)) if rng.random() < .3 else int(gens.pick(rng, [16, 40, 100, 300, 300, 3000]))
     if eo['interp_method'] != 'splrep':
         n = min(n, 150)
     x = gens.signal(rng, kind, n)
